@@ -86,6 +86,45 @@ def gen(ctx, tier, rng):
             c = bytearray(a)
             c[i] ^= 0xff
             L.append("verify%d %s %s" % (n, hexs(a), hexs(bytes(c))))
+    # accumulator-cancellation patterns: every OR-accumulate loop of the model gets inputs whose individual
+    # differences would cancel under XOR / ADD accumulation (two equal masks at two positions, three masks a, b, a^b)
+    for n in (16, 32, 64):
+        a = rb(rng, n)
+        for i in range(n):
+            for j in range(i + 1, n):
+                for mask in (0x01, 0x80, 0xff):
+                    if not (tier == "thorough" or (j - i) % 16 == 0 or mask == 0x80 or (i + j) % 5 == 0):
+                        continue
+                    c = bytearray(a)
+                    c[i] ^= mask
+                    c[j] ^= mask
+                    L.append("verify%d %s %s" % (n, hexs(a), hexs(bytes(c))))
+        if n >= 48:
+            for k in range(16):
+                for (l1, l2, l3) in ((0, 1, 2), (0, 1, 3), (1, 2, 3), (0, 2, 3)):
+                    c = bytearray(a)
+                    m1, m2 = rng.randrange(1, 256), rng.randrange(1, 256)
+                    c[16 * l1 + k] ^= m1
+                    c[16 * l2 + k] ^= m2
+                    c[16 * l3 + k] ^= (m1 ^ m2) or 1
+                    L.append("verify%d %s %s" % (n, hexs(a), hexs(bytes(c))))
+    for n in list(range(2, 41)) + [63, 64, 65, 128]:
+        a = rb(rng, n)
+        pairs = [(i, j) for i in range(n) for j in range(i + 1, n)]
+        if tier != "thorough" and len(pairs) > 120:
+            pairs = rng.sample(pairs, 120)
+        for (i, j) in pairs:
+            for mask in (0x01, 0x80):
+                c = bytearray(a)
+                c[i] ^= mask
+                c[j] ^= mask
+                L.append("memcmp %s %s" % (hexs(a), hexs(bytes(c))))
+            z = bytearray(n)
+            z[i], z[j] = 0x80, 0x80
+            L.append("is_zero %s" % hexs(bytes(z)))
+            x = rng.randrange(1, 256)
+            z[i], z[j] = x, (256 - x) % 256
+            L.append("is_zero %s" % hexs(bytes(z)))
     # exhaustive 1-byte operand pairs
     L.append("enum.c14 1 0 65536")
     # 2-byte operand pairs: sampled ranges in quick, everything in thorough
